@@ -69,7 +69,12 @@ func c19Tree(seed uint64, name string) *lib.Build {
 		b.PutDir("e")
 		b.PutSymlink("s", "a.bin")
 		b.PutSymlink("s-odd", "./b/../a.bin")
-		b.PutFile("notes..txt", rb(33)) // names that merely CONTAIN two dots
+		// byte order of paths differs from walk order: a directory next to names that continue its name with '.' / '-'
+		b.PutFile("data/x.bin", rb(100))
+		b.PutFile("data.txt", rb(101))
+		b.PutFile("data-old/y.bin", rb(102))
+		b.PutSymlink("b/a-link-to-dir", "../e") // a link to a directory with siblings sorted after it
+		b.PutFile("notes..txt", rb(33))         // names that merely CONTAIN two dots
 		b.PutFile("release-1..2/...and-more", rb(44))
 		for i := 0; i < 12; i++ {
 			b.PutFile(fmt.Sprintf("b/f%02d", i), rb(r.Intn(3000)))
